@@ -43,7 +43,9 @@ def strategy(tier):
     # the emitted text must reflect the document as it is now, not as it was when something was first computed
     follow = st.one_of(st.just([]), st.just([]), st.lists(c05.follow_up_op(), min_size=1, max_size=3))
     j = st.builds(lambda r, o, f: dict(r, fmt="json", opts=o, follow=f), gen.recipe("json"), st.sampled_from(c01.OPTS), follow)
-    x = st.builds(lambda c, f: dict(c, fmt="xml", follow=f), c02._case(), follow)
+    # some documents written as XML were LOADED from the library's own PROV-JSON (sorted keys) first: what is written
+    # must not depend on the order in which a record's attributes happened to be stored
+    x = st.builds(lambda c, f, l: dict(c, fmt="xml", follow=f, loaded=l), c02._case(), follow, st.sampled_from([False, False, True]))
     return st.one_of(j, x)
 
 
@@ -52,6 +54,15 @@ def matrix(tier):
         yield dict(c, fmt="json")
     for c in c02.matrix(tier):
         yield dict(c, fmt="xml")
+    from .. import matrix as mx
+    for i, c in enumerate(mx.relation_cells("xml")):
+        yield dict(c, fmt="xml", opts={"force_types": bool(i % 2)}, loaded=True)
+    # formal arguments given in an unusual ORDER over time: the end time at creation, the start time later
+    n = lambda l: {"ns": "http://a/", "local": l, "prefix": "ex", "as": "qn"}
+    for ft in (False, True):
+        yield {"profile": "xml", "fmt": "xml", "opts": {"force_types": ft},
+               "ops": [["ns", 0, "ex", "http://a/"], ["rec", 0, "activity", n("a1"), {"endTime": {"t": "2012-03-02T11:30:00", "as": "dt"}}, [], "factory"]],
+               "follow": [["set_time", 0, "2012-03-02T10:30:00", None, "dt", "dt"]], "cell": ["late-start-time", ft]}
 
 
 def check(case, ctx):
@@ -88,6 +99,16 @@ def check(case, ctx):
             from ..touch import readonly_touch
             readonly_touch(d, len(case["ops"]))      # reads must not leak into what is written
             ctx.count("touched_before_writing")
+    if case.get("loaded") and fmt == "xml":
+        from prov.model import ProvDocument
+        try:
+            d = ProvDocument.deserialize(content=d.serialize(format="json", sort_keys=True), format="json")
+        except Exception as e:
+            return [exc_item(e, "json_before_xml")]
+        if why_not_expressible(d):
+            ctx.count("not_xml_expressible:after_json")
+            return []
+        ctx.count("loaded_from_json_before_writing_xml")
     ctx.count("fmt:" + fmt)
     ctx.nontrivial(c01.classify(b, ctx, case))
     try:
